@@ -638,6 +638,16 @@ Definition to_plus (st : N) : list act * N :=
   | _ => ([], st)
   end%N.
 
+(* FSM.timeout until the restart counter is exhausted: the remaining TO+ retransmissions, then TO-
+   (this-layer-finished — which neither owner wires to anything — and Stopped / Closed) *)
+Definition to_minus (st : N) : list act * N :=
+  match st with
+  | 6 | 7 | 8 => ([Scr], 3)      (* at least one retransmission happened before the counter ran out *)
+  | 4 => ([], 2)
+  | 5 => ([], 3)
+  | _ => ([], st)
+  end%N.
+
 Inductive sev :=
 | EvReq (id : N) (wire : bytes)     (* the subscriber's Configure-Request *)
 | EvAck                             (* the subscriber acknowledges our last Configure-Request verbatim *)
@@ -649,6 +659,7 @@ Inductive sev :=
 | EvTermReq (id : N)                (* the subscriber's Terminate-Request *)
 | EvStoppingTimeout                 (* the restart timer expires in Stopping (restart counter 0 after zrc): TO- *)
 | EvTimeout                         (* the restart timer expires while negotiating, restart counter > 0: TO+ *)
+| EvExhaust                         (* the restart timer keeps expiring until Max-Configure is exhausted: TO- *)
 | EvDown                            (* the subscriber renegotiates LCP: LCP leaves Opened, onLCPDown.  PPPoE sends
                                        FSM.Down() to IPCP (and IPv6CP); the LNS owner leaves the NCPs alone *)
 | EvReauth (aaa : option bytes) (orc : oracle).
@@ -689,6 +700,7 @@ Definition sess_step_live (fl : flags) (s : sess) (e : sev) : sess * list act :=
   | EvStoppingTimeout =>
       sess_fsm_only fl s (s_cfg s) (if N.eqb (s_fsm s) 5 then ([], 3%N) else ([], s_fsm s))
   | EvTimeout => sess_fsm_only fl s (s_cfg s) (to_plus (s_fsm s))
+  | EvExhaust => sess_fsm_only fl s (s_cfg s) (to_minus (s_fsm s))
   | EvDown => sess_down fl s
   | EvReauth aaa orc =>
       match s_owner s with
@@ -823,3 +835,36 @@ Fixpoint lsess_run (fl : flags) (s : lsess) (es : list lev) : lsess :=
 Definition bytes_ok (b : bytes) : Prop := forall x, In x b -> (x < 256)%N.
 Definition lev_ok (e : lev) : Prop :=
   match e with SLReq _ w | SLNak w | SLRej w => bytes_ok w | _ => True end.
+
+(* ---- authentication gates the NCPs (internal/ppp/dispatcher.go HandleFrame, session.go onAuthResult) ----
+   Before authentication has succeeded the session is in the Establish / Authenticate phase: the dispatcher
+   drops every IPCP / IPv6CP frame (inNetworkPhase), and the NCP objects are still in Initial.  A rejected
+   authentication closes LCP (Terminate-Request, retransmitted Max-Terminate times, then Closed); an accepted
+   one runs extractIPFromAttributes + startNCP. *)
+Inductive aphase :=
+| APre                      (* LCP Opened, authentication pending *)
+| AFailed (left : nat)      (* authentication rejected: LCP Closing, that many Terminate-Request retransmissions left *)
+| AClosed                   (* LCP Closed *)
+| AStarted (s : sess).      (* authenticated: NCPs started (or IPv4 stays down) *)
+Inductive aev :=
+| ANcpReq (v6 : bool) (id : N) (wire : bytes)      (* an IPCP / IPv6CP Configure-Request from the subscriber *)
+| AFail                                            (* the AAA answer is a reject *)
+| AOk (aaa : option bytes) (dns : option bytes * option bytes) (orc : oracle) (ch : choice)
+| ATimeout                                         (* LCP restart timer *)
+| ASess (e : sev).                                 (* anything the IPCP session model knows *)
+
+(* result: new phase, IPCP actions, number of LCP Terminate-Requests sent *)
+Definition astep (fl : flags) (st : aphase) (e : aev) : aphase * list act * nat :=
+  match st, e with
+  | APre, AOk aaa d orc ch =>
+      let s := sess_start_dns fl PPPoE aaa d orc ch in
+      (AStarted s, if N.eqb (s_fsm s) 0 then [] else [Scr], O)
+  | APre, AFail => (AFailed 2, [], 1%nat)                  (* Close: str with Max-Terminate = 2 *)
+  | AFailed (S n), ATimeout => (AFailed n, [], 1%nat)      (* TO+: Terminate-Request again *)
+  | AFailed O, ATimeout => (AClosed, [], O)                (* TO-: this-layer-finished, Closed *)
+  | AStarted s, ASess ev => let (s', a) := sess_step fl s ev in (AStarted s', a, O)
+  | AStarted s, ANcpReq false id wire => let (s', a) := sess_step fl s (EvReq id wire) in (AStarted s', a, O)
+  | _, _ => (st, [], O)
+  end.
+Fixpoint arun (fl : flags) (st : aphase) (es : list aev) : aphase :=
+  match es with [] => st | e :: rest => arun fl (fst (fst (astep fl st e))) rest end.
